@@ -71,6 +71,10 @@ var corpus = []pat{
 	{`(a|b)\1+c?`, oE, []string{"a", "b", "aa", "bb", "c", "ab"}, "ecma backreference"},
 	{`(?P<word>\w+)-(?P<num>\d+)`, oRE2, []string{"ab", "-", "12", "x-7", " ", "é"}, "re2 named"},
 	{`(?<a>x)|(?<b>y)`, oN | oRTL, []string{"x", "y", "xy", "z"}, "explicitcapture rtl"},
+	// empty matches: every multi-match entry point has to bump along, also over multi-byte runes and right to left
+	{`a*`, 0, []string{"a", "b", "aa", "é", "日", "ba"}, "empty matches"},
+	{`\b|(\d)`, 0, []string{"ab", " ", "1", "é1", "-", "日 2"}, "empty matches boundary"},
+	{`(x*?)`, oRTL, []string{"x", "y", "xx", "é", "yx"}, "empty matches rtl lazy"},
 	// literal prefixes with non-ASCII runes (Boyer-Moore tables beyond the ASCII page), also case-insensitive and right-to-left
 	{`日本語(\d+)`, 0, []string{"日本語", "日本語12", "日本", "12", "語", " ", "本語日本語7"}, "nonascii prefix"},
 	{`wörld-(\w+)`, oI, []string{"wörld-", "WÖRLD-x", "wor", "ld-", "é", " ", "world-"}, "nonascii prefix ignorecase"},
